@@ -14,17 +14,17 @@ CLAIMED = {
             "Trusts the claims model written from the statement, the reference token builder (own base64url, OpenSSL HMAC) and jansson for value representation."),
 }
 
-W = "deterministic simulation: multi-party world (key owners, issuers, verifiers on both providers) with an adversarial in-memory transport; seeded fault/schedule search; monitors as implications against reference oracles"
+W = "deterministic simulation: multi-party world (key owners, issuers, verifiers on both providers) with an adversarial in-memory transport, a simulated clock that also steps back, and injected allocation failures inside verify/generate/key import (soundness monitors stay in force under them); seeded fault/schedule search; monitors as implications against reference oracles"
 WN = 'Trusts OpenSSL EVP (called directly on simulator-generated ground-truth keys) as the signature oracle, the reference base64url/token reader, and jansson for JSON values. Sampling over seeds, not proof.'
 CLAIMED.update({
     "C01": ("exploration", "DESIGN.md 4/C01", W, "Every delivery - pristine, damaged, spliced, re-signed with attacker-computable keys, re-framed, misrouted - to a verifier holding a key is judged: accepted => the third segment is a valid signature under the verifier's ground-truth key and the header's algorithm (lenient reference reading), on both providers.", WN),
     "C02": ("exploration", "DESIGN.md 4/C02", W + "; stratified over explicit alg x key kind x route", "setkey admission table, pin (accepted/emitted alg == pinned alg), key family, for setkey and callback-selected pairs, on checkers and builders; header alg variants incl. case variants, unknown, missing, non-string; attacker-computable HMAC keys.", WN),
     "C03": ("exploration", "DESIGN.md 4/C03", W, "Unsigned-token rules on checkers (key by setkey or callback => never accept empty signature / alg none; no key => only alg 'none' with empty third segment) and builders (key by setkey or callback => never unsigned).", WN),
-    "C05": ("exploration", "DESIGN.md 4/C05", W + "; signer randomness from the simulated entropy stream", "Issue -> pristine delivery -> verify across all (issuer provider, verifier provider) pairs and key types; must accept; header/claims read in the checker callback json_equal to builder input plus library members; short ECDSA r/s counted by probes.", WN),
+    "C05": ("exploration", "DESIGN.md 4/C05", W + "; signer randomness from the simulated entropy stream; every eighth run interleaves caller threads under the seeded scheduler and judges their tokens and verdicts by the same reference", "Issue -> pristine delivery -> verify across all (issuer provider, verifier provider) pairs and key types; must accept; header/claims read in the checker callback json_equal to builder input plus library members; short ECDSA r/s counted by probes.", WN),
     "C06": ("exploration", "DESIGN.md 4/C06 (weak fit)", W + "; garbage and near-valid deliveries under ASan/UBSan with live-block accounting and allocator guard bytes; every fourth run a claim-policy history (leeways, clocks and exp/nbf at 64-bit extremes) judged for crashes, UB and leaks", "Every delivery incl. pure garbage up to 64 KiB must return, produce no sanitizer report, leak no simulator-allocator block, and be rejected when the lenient reference finds it malformed. No coverage guidance; a fuzzer would be the stronger tool.", WN),
     "C08": ("exploration", "DESIGN.md 4/C08 (weak fit)", W + "; monitor on every key-distribution event", "Every well-formed JWK published in any run (all types/sizes, private and public, optional members, zero-padded / minimal integers, foreign and unknown members) must import to exactly the ground-truth key and metadata.", WN),
     "C09": ("exploration", "DESIGN.md 4/C09 (weak fit)", W + "; oct lengths 0-160 and weak RSA/EC cells stratified by run index", "No generate or verify event of any run succeeds below the key-strength floor; keys at the floor round-trip.", WN),
-    "C12": ("exploration", "DESIGN.md 4/C12", W + "; each comparable delivery re-judged under the other provider; deterministic algs generated under both", "Verdict agreement between OpenSSL and GnuTLS for pristine and not-validly-signed tokens (provenance-classified), byte-identical HS*/RS*/EdDSA tokens, keys loaded under one provider used under the other.", WN),
+    "C12": ("exploration", "DESIGN.md 4/C12", W + "; each comparable delivery re-judged under the other provider; deterministic algs generated under both; every eighth run interleaves caller threads (tokens of deterministic algorithms must not depend on the interleaving); every eighth run is a provider-switch history", "Verdict agreement between OpenSSL and GnuTLS for pristine and not-validly-signed tokens (provenance-classified), byte-identical HS*/RS*/EdDSA tokens, keys loaded under one provider used under the other.", WN),
     "C14": ("exploration", "DESIGN.md 4/C14 (weak fit)", "deterministic simulation: cross-cutting monitor over the event streams of the other profiles", "return value <=> error flag <=> non-empty message after every verify/generate of fault-free runs of the world and claims profiles.", "Only failure causes the simulated worlds reach are covered; the evidence lists them."),
 })
 
